@@ -63,9 +63,13 @@ func init() {
 	}
 	// block analysis order: for a class block the sets handed to children are copied from bound/global BEFORE the block's own names are analysed (class bindings, including a `global` in the class body, are not visible in methods); for other blocks after; children are analysed on those sets; cells computed for function blocks, __class__ dropped for class blocks; symbols updated; free propagated [symtable.c analyze_block]  []
 	pathSpec["symtable|SymTable.AnalyzeBlock"] = []string{
-		"[recv.Type != ClassBlock && recv.Type != FunctionBlock] LOOP(range recv.Symbols){[] recv.AnalyzeName(make#2, idx(recv.Symbols), recv.Symbols[*], p1, make#1, p2, p3) }; make#5.Update(p1); make#3.Update(p3); LOOP(range recv.Children){[!(entry.ChildFree) && !(entry.Free)] recv.Children[*].AnalyzeChildBlock(make#5, make#4, make#3, make#6)  | [!(entry.Free) && entry.ChildFree] recv.Children[*].AnalyzeChildBlock(make#5, make#4, make#3, make#6)  | [entry.Free] recv.Children[*].AnalyzeChildBlock(make#5, make#4, make#3, make#6) }; make#4.Update(make#6); recv.Symbols.Update(make#2, p1, make#4, recv.Type == ClassBlock); p2.Update(make#4)",
-		"[recv.Type == ClassBlock] make#3.Update(p3); make#5.Update(p1); LOOP(range recv.Symbols){[] recv.AnalyzeName(make#2, idx(recv.Symbols), recv.Symbols[*], p1, make#1, p2, p3) }; make#5.Add(\"__class__\"); LOOP(range recv.Children){[!(entry.ChildFree) && !(entry.Free)] recv.Children[*].AnalyzeChildBlock(make#5, make#4, make#3, make#6)  | [!(entry.Free) && entry.ChildFree] recv.Children[*].AnalyzeChildBlock(make#5, make#4, make#3, make#6)  | [entry.Free] recv.Children[*].AnalyzeChildBlock(make#5, make#4, make#3, make#6) }; make#4.Update(make#6); recv.DropClassFree(make#4); recv.Symbols.Update(make#2, p1, make#4, recv.Type == ClassBlock); p2.Update(make#4)",
-		"[recv.Type == FunctionBlock] LOOP(range recv.Symbols){[] recv.AnalyzeName(make#2, idx(recv.Symbols), recv.Symbols[*], p1, make#1, p2, p3) }; make#5.Update(make#1); make#5.Update(p1); make#3.Update(p3); LOOP(range recv.Children){[!(entry.ChildFree) && !(entry.Free)] recv.Children[*].AnalyzeChildBlock(make#5, make#4, make#3, make#6)  | [!(entry.Free) && entry.ChildFree] recv.Children[*].AnalyzeChildBlock(make#5, make#4, make#3, make#6)  | [entry.Free] recv.Children[*].AnalyzeChildBlock(make#5, make#4, make#3, make#6) }; make#4.Update(make#6); AnalyzeCells(make#2, make#4); recv.Symbols.Update(make#2, p1, make#4, recv.Type == ClassBlock); p2.Update(make#4)",
+		"[recv.Type != ClassBlock && recv.Type != FunctionBlock] LOOP(range recv.Symbols){[] recv.AnalyzeName(make#2, idx(recv.Symbols), recv.Symbols[*], p1, make#1, p2, p3) }; make#5.Update(p1); make#3.Update(p3); LOOP(range recv.Children){[!(recv.Children[*].ChildFree) && !(recv.Children[*].Free)] recv.Children[*].AnalyzeChildBlock(make#5, make#4, make#3, make#6)  | [!(recv.Children[*].Free) && recv.Children[*].ChildFree] recv.Children[*].AnalyzeChildBlock(make#5, make#4, make#3, make#6)  | [recv.Children[*].Free] recv.Children[*].AnalyzeChildBlock(make#5, make#4, make#3, make#6) }; make#4.Update(make#6); recv.Symbols.Update(make#2, p1, make#4, recv.Type == ClassBlock); p2.Update(make#4)",
+		"[recv.Type == ClassBlock] make#3.Update(p3); make#5.Update(p1); LOOP(range recv.Symbols){[] recv.AnalyzeName(make#2, idx(recv.Symbols), recv.Symbols[*], p1, make#1, p2, p3) }; make#5.Add(\"__class__\"); LOOP(range recv.Children){[!(recv.Children[*].ChildFree) && !(recv.Children[*].Free)] recv.Children[*].AnalyzeChildBlock(make#5, make#4, make#3, make#6)  | [!(recv.Children[*].Free) && recv.Children[*].ChildFree] recv.Children[*].AnalyzeChildBlock(make#5, make#4, make#3, make#6)  | [recv.Children[*].Free] recv.Children[*].AnalyzeChildBlock(make#5, make#4, make#3, make#6) }; make#4.Update(make#6); recv.DropClassFree(make#4); recv.Symbols.Update(make#2, p1, make#4, recv.Type == ClassBlock); p2.Update(make#4)",
+		"[recv.Type == FunctionBlock] LOOP(range recv.Symbols){[] recv.AnalyzeName(make#2, idx(recv.Symbols), recv.Symbols[*], p1, make#1, p2, p3) }; make#5.Update(make#1); make#5.Update(p1); make#3.Update(p3); LOOP(range recv.Children){[!(recv.Children[*].ChildFree) && !(recv.Children[*].Free)] recv.Children[*].AnalyzeChildBlock(make#5, make#4, make#3, make#6)  | [!(recv.Children[*].Free) && recv.Children[*].ChildFree] recv.Children[*].AnalyzeChildBlock(make#5, make#4, make#3, make#6)  | [recv.Children[*].Free] recv.Children[*].AnalyzeChildBlock(make#5, make#4, make#3, make#6) }; make#4.Update(make#6); AnalyzeCells(make#2, make#4); recv.Symbols.Update(make#2, p1, make#4, recv.Type == ClassBlock); p2.Update(make#4)",
+	}
+	// cell analysis: a name that is Local in this block and free in a child becomes a Cell and is removed from the free set; every other name is left as it is [symtable.c analyze_cells]  []
+	pathSpec["symtable|AnalyzeCells"] = []string{
+		"[] LOOP(range p1){[!(p2.Contains(idx(p1))) && p1[*] == ScopeLocal] p2.Contains(idx(p1))  | [p1[*] != ScopeLocal]   | [p1[*] == ScopeLocal && p2.Contains(idx(p1))] p2.Contains(idx(p1)); p1[idx(p1)] = 5; p2.Discard(idx(p1)) }",
 	}
 	// sequence unpacking (UNPACK_SEQUENCE / UNPACK_EX): the first argcnt items are stored downwards from the top so that the leftmost target is popped first; the starred list takes the rest; the after-star items are taken from the end of that list in the same downward order [ceval.c unpack_iterable]  []
 	pathSpec["vm|unpack_iterable"] = []string{
@@ -156,8 +160,8 @@ func init() {
 	}
 	// cell delete empties the cell, unbound error when already empty [ceval.c]  []
 	pathSpec["vm|do_DELETE_DEREF"] = []string{
-		"[cell.Get() != nil] vm.frame.CellAndFreeVars[p2].Get(); vm.frame.CellAndFreeVars[p2].Delete() -> nil",
-		"[cell.Get() == nil] vm.frame.CellAndFreeVars[p2].Get(); unboundDeref(vm, p2) -> vm.unboundDeref#0",
+		"[(*py.Cell).Get#0 != nil] vm.frame.CellAndFreeVars[p2].Get(); vm.frame.CellAndFreeVars[p2].Delete() -> nil",
+		"[(*py.Cell).Get#0 == nil] vm.frame.CellAndFreeVars[p2].Get(); unboundDeref(vm, p2) -> vm.unboundDeref#0",
 	}
 	// pushes the cell object of slot i itself [ceval.c]  []
 	pathSpec["vm|do_LOAD_CLOSURE"] = []string{
@@ -178,7 +182,7 @@ func init() {
 	}
 	// symbol-table update after scope analysis: scope bits are recorded; in a class block a name that is free in a method and bound OR declared global in the class gets DefFreeClass; a free name unknown to the block is added as free [symtable.c update_symbols] — the compiler's closure construction relies on it  []
 	pathSpec["symtable|Symbols.Update"] = []string{
-		"[] LOOP(range recv){[]  }; LOOP(range p3){[!(has(recv[name])) && !(p2.Contains(name))]   | [!(has(recv[name])) && p2.Contains(name)]   | [!(p4) && has(recv[name])]   | [(symbol.Flags & (DefBound | DefGlobal)) != 0 && has(recv[name]) && p4]   | [(symbol.Flags & (DefBound | DefGlobal)) == 0 && has(recv[name]) && p4]  }",
+		"[] LOOP(range recv){[] recv[*].Scope = p1[*]; recv[idx(recv)] = recv[*] }; LOOP(range p3){[!(has(recv[idx(p3)])) && !(p2.Contains(idx(p3)))]   | [!(has(recv[idx(p3)])) && p2.Contains(idx(p3))] recv[idx(p3)] = composite[4]  | [!(p4) && has(recv[idx(p3)])]   | [(symbol.Flags & (DefBound | DefGlobal)) != 0 && has(recv[idx(p3)]) && p4] symbol.Flags |= DefFreeClass; recv[idx(p3)] = recv[*]  | [(symbol.Flags & (DefBound | DefGlobal)) == 0 && has(recv[idx(p3)]) && p4]  }",
 	}
 	// repr/ascii escaping per character class: control characters as \t \n \r \xHH; in repr mode printable ASCII with backslash and the chosen quote escaped; in ascii mode ASCII passes through untouched (the text is an already escaped repr); Latin-1, BMP and astral characters printable-or-escaped by width  []
 	pathSpec["py|StringEscape"] = []string{
@@ -195,7 +199,7 @@ func init() {
 		"[!(p1.(*Slice)) && py.IndexIntCheck#1 == nil] IndexIntCheck(p1, len(recv.Items)); recv.Items[i] = p2 -> None, nil",
 		"[(*py.Slice).GetIndices#4 != nil && p1.(*Slice)] p1.GetIndices(len(recv.Items)) -> nil, err!",
 		"[(*py.Slice).GetIndices#4 == nil && len(py.SequenceTuple#0) - ret#3:slice.GetIndices(len(recv.Items)) != 0 && p1.(*Slice) && py.SequenceTuple#1 == nil && ret#2:slice.GetIndices(len(recv.Items)) != 1] p1.GetIndices(len(recv.Items)); SequenceTuple(p2); ExceptionNewf(ValueError, \"attempt to assign sequence of s…#fbdadfd3\", len(py.SequenceTuple#0), ret#3:slice.GetIndices(len(recv.Items))) -> nil, err!",
-		"[(*py.Slice).GetIndices#4 == nil && len(py.SequenceTuple#0) - ret#3:slice.GetIndices(len(recv.Items)) == 0 && p1.(*Slice) && py.SequenceTuple#1 == nil && ret#2:slice.GetIndices(len(recv.Items)) != 1] p1.GetIndices(len(recv.Items)); SequenceTuple(p2); LOOP(for i, j := start, 0; j < slicelength; i, j = i+step, j+1){[]  } -> None, nil",
+		"[(*py.Slice).GetIndices#4 == nil && len(py.SequenceTuple#0) - ret#3:slice.GetIndices(len(recv.Items)) == 0 && p1.(*Slice) && py.SequenceTuple#1 == nil && ret#2:slice.GetIndices(len(recv.Items)) != 1] p1.GetIndices(len(recv.Items)); SequenceTuple(p2); LOOP(for i, j := start, 0; j < slicelength; i, j = i+step, j+1){[] recv.Items[i] = py.SequenceTuple#0[*] } -> None, nil",
 		"[(*py.Slice).GetIndices#4 == nil && p1.(*Slice) && py.SequenceTuple#1 != nil] p1.GetIndices(len(recv.Items)); SequenceTuple(p2) -> nil, err!",
 		"[(*py.Slice).GetIndices#4 == nil && p1.(*Slice) && py.SequenceTuple#1 == nil && ret#0:slice.GetIndices(len(recv.Items)) - ret#1:slice.GetIndices(len(recv.Items)) <= 0 && ret#2:slice.GetIndices(len(recv.Items)) == 1] p1.GetIndices(len(recv.Items)); SequenceTuple(p2); recv.Items = append(recv.Items[:start], py.SequenceTuple#0); recv.Items = append(recv.Items, copy-of[recv.Items[stop:]]) -> None, nil",
 		"[(*py.Slice).GetIndices#4 == nil && p1.(*Slice) && py.SequenceTuple#1 == nil && ret#0:slice.GetIndices(len(recv.Items)) - ret#1:slice.GetIndices(len(recv.Items)) >= 1 && ret#2:slice.GetIndices(len(recv.Items)) == 1] p1.GetIndices(len(recv.Items)); SequenceTuple(p2); recv.Items = append(recv.Items[:start], py.SequenceTuple#0); recv.Items = append(recv.Items, copy-of[recv.Items[stop:]]) -> None, nil",
